@@ -224,6 +224,10 @@ def build_args(desc: dict[str, Any], recipe: list[Any], variant: int, profile: s
             elif dkey is not None:
                 seen_dims[dkey] = i
         mant = sympy.Rational(num, den * 7)
+        if profile == "decades":
+            # every magnitude a power of ten: ratios of logarithms come out as exact integers now and then (the
+            # boundary of the documented rounded-up results)
+            mant, k = sympy.Integer(1), (num + k) % 4 - 1
         if mant == 1:
             info["unit_mantissa"] = True
         val = mant * sympy.Integer(10)**k
@@ -298,6 +302,8 @@ def build_args(desc: dict[str, Any], recipe: list[Any], variant: int, profile: s
                 continue
             choice = (u1 if variant == 0 else u2) % 3
             v = mant if abs(val) > 50 or abs(val) < sympy.Rational(1, 50) else val
+            if profile == "decades":
+                v = sympy.Integer(10)**((num + i) % 3 + (1 if i % 2 else 0))
             if ann == "float":
                 args.append(float(v))
                 si.append(sympy.Rational(float(v)))
@@ -675,6 +681,16 @@ def _judge(desc: dict[str, Any], recipe: list[Any], profile: str = "macro") -> t
         tol = sympy.Float("1e-9") * sc
         if abs(res) > tol:
             tol = tol + sympy.Float("1e-10") * _sensitivity(eq, sub, qsub, res)
+        if abs(res) > tol and DOCUMENTED_OPS.get((short(desc["module"]), desc["name"])) == "ceiling":
+            n_exact = _exact_integer_solution(desc, sub)
+            if n_exact is not None:
+                # the solution of the law is EXACTLY an integer (decided symbolically): its rounded-up value is itself; the
+                # perturbation test below would call this discontinuity ill-conditioned and skip it
+                info["documented_op"] = "ceiling-at-exact-integer"
+                if na != n_exact:
+                    out.append((f"residual:{site}", f"{site} returned {_fmt(na)} for {_show(args_a)}, but the solution of the published "
+                        f"equation '{attr}' is exactly the integer {n_exact}, whose rounded-up value is {n_exact}"))
+                return out, info
         if abs(res) > tol and (_ill_conditioned(eq, sub, qsub, sc) or _perturbation_sensitive(desc, names, args_a, na)):
             info["residual_skipped"] = "ill-conditioned-in-double-precision"
             return out, info
@@ -826,6 +842,21 @@ def _fmt(x: Any) -> str:
         return repr(x)
 
 
+def _exact_integer_solution(desc: dict[str, Any], sub: dict[Any, Any]) -> Any:
+    """The unique real solution of the published equation for the output symbol if it is exactly an integer, else None."""
+    import sympy
+    _attr, eq = desc["equation"]
+    out = desc["out_sym"]
+    try:
+        sols = sympy.solve(eq, out)
+        inputs = {k: exactify(v) for k, v in sub.items() if k != out}
+        exact = [sympy.simplify(s.xreplace(inputs)) for s in sols]
+    except Exception:  # pylint: disable=broad-except
+        return None
+    ints = [e for e in exact if e.is_Integer]
+    return ints[0] if len(exact) == 1 and ints else None
+
+
 def _documented_ok(op: str, desc: dict[str, Any], sub: dict[Any, Any], qsub: dict[Any, Any], va: Any) -> bool:
     """result == op(solution) where the solution is obtained by the harness from the published equation."""
     import sympy
@@ -843,6 +874,14 @@ def _documented_ok(op: str, desc: dict[str, Any], sub: dict[Any, Any], qsub: dic
             continue
         real_solutions += 1
         want = abs(v) if op == "abs" else sympy.ceiling(v)
+        if op == "ceiling":
+            # an exactly integral solution is its own rounded-up value: decide it exactly, not from 50 digits
+            try:
+                exact = sympy.nsimplify(sympy.simplify(exactify(s.xreplace(inputs))), rational=False)
+                if exact.is_Integer or abs(v - sympy.nint(v)) < sympy.Float("1e-40"):
+                    want = sympy.Integer(sympy.nint(v))
+            except Exception:  # pylint: disable=broad-except
+                pass
         if abs(_num(va) - want) <= sympy.Float("1e-9") * (abs(want) + 1):
             return True
     # no usable reference solution at this input (degenerate arguments): cannot be judged
@@ -905,6 +944,17 @@ def _shard(task: dict[str, Any]) -> Recorder:
                             labels=["profile:tiny", "tier:" + str(info3.get("tier"))])
                     elif info3.get("status") == "hang":
                         rec.inconclusive += 1
+                if DOCUMENTED_OPS.get((short(modname), fname)) == "ceiling":
+                    # documented rounded-up results: magnitudes that are powers of ten hit exactly integral solutions
+                    for rot in range(6):
+                        rr = [list(x) for x in recipe]
+                        rr = rr[rot % len(rr):] + rr[:rot % len(rr)]
+                        res5, info5 = judge(desc, [tuple(x) for x in rr], profile="decades")
+                        st5 = str(info5.get("status", "ok")).split(":")[0]
+                        for key, what in res5:
+                            rec.violation(key, what, {"module": modname, "function": fname, "recipe": rr, "profile": "decades"})
+                        rec.case({"f": site, "r": rr, "p": "decades"}, nontrivial=st5 == "ok",
+                            labels=["profile:decades", "decades:status:" + st5] + (["decades:documented_op"] if info5.get("documented_op") else []))
                 if r_i == 0 or task.get("tiny_all"):
                     # additional attempt: parameters of equal dimension tied to the same SI value
                     res4, info4 = judge(desc, recipe, profile="tied")
